@@ -4,7 +4,8 @@ import json
 from typing import List, Literal, Optional, Set, Union
 
 from hypothesis import strategies as st
-from pydantic import Extra, NonNegativeInt, PositiveFloat, ValidationError
+from pydantic import Extra, Field, NonNegativeInt, PositiveFloat, ValidationError
+from typing_extensions import Annotated
 
 from .. import compat  # noqa: F401
 from .. import hyp
@@ -96,6 +97,12 @@ SING = {
     "Lit_a": Literal["a"], "Lit_ab": Literal["a", "b"], "Lit_1": Literal[1], "Lit_a1": Literal["a", 1],
     "BaseM": BaseM, "SubM": SubM, "OtherM": OtherM, "BadSubM": BadSubM,
 }
+# pydantic constraints given the documented way (Annotated[..., Field(...)]); weaker and stronger variants
+ANNOTATED = {
+    "Ann[List[Int],min1]": Annotated[List[T.Int], Field(min_items=1)], "Ann[List[Int],min0]": Annotated[List[T.Int], Field(min_items=0)],
+    "Ann[List[Int],max1]": Annotated[List[T.Int], Field(max_items=1)],
+    "Ann[int,ge0]": Annotated[int, Field(ge=0)], "Ann[int,ge-10]": Annotated[int, Field(ge=-10)], "Ann[int,le5]": Annotated[int, Field(le=5)],
+}
 HASHABLE = ["Int", "Str", "NonEmptyStr", "NarrowStr", "Lit_a", "Lit_ab", "Bool"]
 UNIONS = [("Int", "Str"), ("Int", "Float"), ("NonEmptyStr", "Int"), ("Lit_a", "Int"), ("BaseM", "Int"), ("SubM", "Int"),
           ("Bool", "NarrowStr"), ("Int", "Str", "Bool")]
@@ -108,6 +115,7 @@ def pool():
         out[f"List[{k}]"] = List[v]
     for k in HASHABLE:
         out[f"Set[{k}]"] = Set[SING[k]]
+    out.update(ANNOTATED)
     for u in UNIONS:
         out["Union[" + ",".join(u) + "]"] = Union[tuple(SING[m] for m in u)]
         out["Optional[Union[" + ",".join(u) + "]]"] = Optional[Union[tuple(SING[m] for m in u)]]
